@@ -544,13 +544,17 @@ void NifFile::SortGraph(NiNode* root, SortState& sortState) {
 			if (isRootNode) {
 				// Reorder shapes on root node if order is provided
 				if (sortState.rootShapeOrder.size() == shapeIndices.size()) {
-					std::vector<uint32_t> newShapeIndices(shapeIndices.size());
+					std::vector<uint32_t> newShapeIndices;
+					newShapeIndices.reserve(shapeIndices.size());
 					for (size_t si = 0; si < sortState.rootShapeOrder.size(); si++) {
 						auto it = find(shapeIndices, sortState.rootShapeOrder[si]);
 						if (it != shapeIndices.end())
-							newShapeIndices[si] = shapeIndices[std::distance(shapeIndices.begin(), it)];
+							newShapeIndices.push_back(*it);
 					}
-					shapeIndices = newShapeIndices;
+
+					// Only reorder if every ordered shape is a child of this node
+					if (newShapeIndices.size() == shapeIndices.size())
+						shapeIndices = newShapeIndices;
 				}
 			}
 
@@ -585,13 +589,17 @@ void NifFile::SortGraph(NiNode* root, SortState& sortState) {
 			if (isRootNode) {
 				// Reorder shapes on root node if order is provided
 				if (sortState.rootShapeOrder.size() == shapeIndices.size()) {
-					std::vector<uint32_t> newShapeIndices(shapeIndices.size());
+					std::vector<uint32_t> newShapeIndices;
+					newShapeIndices.reserve(shapeIndices.size());
 					for (size_t si = 0; si < sortState.rootShapeOrder.size(); si++) {
 						auto it = find(shapeIndices, sortState.rootShapeOrder[si]);
 						if (it != shapeIndices.end())
-							newShapeIndices[si] = shapeIndices[std::distance(shapeIndices.begin(), it)];
+							newShapeIndices.push_back(*it);
 					}
-					shapeIndices = newShapeIndices;
+
+					// Only reorder if every ordered shape is a child of this node
+					if (newShapeIndices.size() == shapeIndices.size())
+						shapeIndices = newShapeIndices;
 				}
 			}
 
